@@ -8,6 +8,7 @@ C->S: danger_space on real extra-data trajectories, projected to per-row classif
 """
 from __future__ import annotations
 
+import math
 import random
 
 from pbv import core, impl, shots
@@ -99,7 +100,7 @@ def real_traces(chk, n_shots, rng):
     tid = 0
     grp = 0
     for s in range(n_shots):
-        p = shots.gen_shot(rng, look=rng.choice([0.0, 0.0, 5.0, -8.0, 20.0]))
+        p = shots.gen_shot(rng, look=rng.choice([0.0, 5.0, -8.0, 20.0, -25.0, 35.0]))
         shot = shots.build_shot(p)
         calc = shots.build_calc({"max_calc_step_size_feet": rng.choice([1.0, 2.0, 4.0])})
         zero_yd = rng.choice([50, 100, 200, 300])
@@ -108,7 +109,7 @@ def real_traces(chk, n_shots, rng):
         except Exception:
             pass  # zeroing is C02's business; an un-zeroed shot still has a trajectory
         rng_yd = rng.choice([300, 500, 800])
-        step_yd = rng.choice([5, 10, 25])
+        step_yd = rng.choice([2, 5, 10, 25])
         try:
             hr = calc.fire(shot, U.Yard(rng_yd), U.Yard(step_yd), extra_data=True)
         except m.RangeError as e:
@@ -118,7 +119,12 @@ def real_traces(chk, n_shots, rng):
             continue
         drops = [r.target_drop.raw_value for r in traj]
         dists = [r.distance.raw_value for r in traj]
-        targets = [rng.uniform(0, dists[-1]) for _ in range(4)] + [dists[rng.randrange(len(dists))], dists[-1] * 1.01 + 1]
+        j = rng.randrange(1, len(dists))
+        look_r = math.radians(p["look_deg"])
+        targets = [rng.uniform(0, dists[-1]) for _ in range(3)] + [dists[rng.randrange(len(dists))],
+                   dists[j] + 1e-6 * max(1.0, dists[j]), dists[j - 1] + 0.98 * (dists[j] - dists[j - 1]),
+                   dists[-1] * 1.01 + 1, dists[-1] * (1 + 1e-9) + 1e-6,
+                   dists[-1] + 0.5 * (dists[-1] / max(math.cos(look_r), 1e-9) - dists[-1]) + 1e-6]
         for at_raw in targets:
             grp += 1
             t = next((i + 1 for i, x in enumerate(dists) if x >= at_raw), 0)
@@ -139,10 +145,10 @@ def real_traces(chk, n_shots, rng):
                 if o[0] == "ok":
                     ds = o[1]
                     ident = lambda row: next((i + 1 for i, x in enumerate(traj) if x is row), 0)
-                    b, e, err = ident(ds.begin), ident(ds.end), "none"
+                    b, e, err, at_i = ident(ds.begin), ident(ds.end), "none", ident(ds.at_range)
                 else:
-                    b, e, err = 0, 0, o[1]
-                line = {"id": tid, "cls": cls, "t": t, "b": b, "e": e, "err": err, "grp": grp, "hrank": hrank}
+                    b, e, err, at_i = 0, 0, o[1], 0
+                line = {"id": tid, "cls": cls, "t": t, "b": b, "e": e, "err": err, "grp": grp, "hrank": hrank, "at": at_i}
                 lines.append(line)
                 raw[tid] = {"shot": p, "zero_yd": zero_yd, "range_yd": rng_yd, "step_yd": step_yd, "at_inch": at_raw,
                             "height_inch": h_in, "line": {k: v for k, v in line.items() if k != "cls"},
